@@ -92,7 +92,9 @@ class Effects:
                     if m.get("panics"):
                         e["panics"].append((n, c.bb))
                 if n in ("std::ptr::read", "hashbrown::raw::Bucket::read", "std::mem::MaybeUninit::assume_init_read",
-                         "std::ptr::read_unaligned", "std::ptr::read_volatile"):
+                         "std::ptr::read_unaligned", "std::ptr::read_volatile", "std::ptr::mut_ptr::<impl *mut T>::read",
+                         "std::ptr::const_ptr::<impl *const T>::read", "std::ptr::mut_ptr::<impl *mut T>::read_unaligned",
+                         "std::ptr::const_ptr::<impl *const T>::read_unaligned", "std::ptr::NonNull::read"):
                     if self._mentions_entry(c):
                         e["copy_out"].append(c)
                 if n in OWN_PRIMS:
